@@ -71,6 +71,7 @@ def _gen_main(rng, tier):
 def gen(rng, tier):
     yield from _gen_main(rng, tier)
     yield from _grid(rng, tier)
+    yield from _huge(rng, tier)
     yield from _prim.bits(rng, tier)
 
 
@@ -81,3 +82,11 @@ def _grid(rng, tier):
             for op in UN:
                 for a in edge_grid(w, n):
                     yield f"{op} {s}{cfg} {hx(a)}", "edge-grid"
+
+
+def _huge(rng, tier):
+    for cfg in HUGE_CFGS:
+        for a in huge_values(rng, cfg):
+            for s in "ui":
+                for op in UN:
+                    yield f"{op} {s}{cfg} {hx(a)}", "huge"
